@@ -1,4 +1,5 @@
 import TrucModel.Proofs.Memory
+import TrucModel.Proofs.Refine
 import TrucModel.Generated.Primitives
 /-
   C04 — A record gives back exactly the field values that were put into it.
@@ -47,6 +48,49 @@ theorem C04_store_frame (dr : String → Bool) (b b' : Buf) (d d' : D) (v : Val)
   subst hs2
   rw [find_eq, find_eq, he]
   exact find_after_store_other _ _ _ _ hv hap
+
+/-- **program level.** For every variant whose fields have distinct names, pairwise apart extents inside
+    the capacity (what C01/C02/C12 give) and for every assignment of values: the generated constructor
+    runs without machine error, and afterwards the generated read accessor of *every* field returns
+    exactly the value supplied for it. -/
+theorem C04_new_get (dr : String → Bool) (cap : Nat) (s : Spec) (hwf : WFData cap s.data) (vals : List Val)
+    (hl : vals.length = s.data.length) (hty : ∀ p ∈ s.data.zip vals, p.2.ty = p.1.ty) :
+    ∃ b st, call dr cap (ctorNew s) { args := [("from", fieldsOf s.data vals)] } = .ok st ∧ st.result = .record b ∧ st.drops = [] ∧
+      ∀ p ∈ s.data.zip vals, ∀ sig,
+        call dr cap ⟨sig, [.get p.1]⟩ { self_ := some b } = .ok { self_ := some b, result := .ref p.2, acc := [("get", p.1.offset, p.1.ty)] } := by
+  obtain ⟨b, st, hcall, hres, hcap, hdrops, _, hfound, _⟩ := ctorNew_ok dr cap s hwf vals hl hty
+  refine ⟨b, st, hcall, hres, hdrops, ?_⟩
+  intro p hp sig
+  have := get_ok dr cap sig b p.1 _ (by rw [hcap]; exact hwf.inCap p.1 (List.of_mem_zip hp).1) (hfound p hp)
+  simpa using this
+
+/-- … and unpacking it hands back exactly those values, in field order, dropping nothing -/
+theorem C04_new_unpack (dr : String → Bool) (cap : Nat) (s : Spec) (hwf : WFData cap s.data) (hrec : "record" ∉ s.data.map (·.name))
+    (vals : List Val) (hl : vals.length = s.data.length) (hty : ∀ p ∈ s.data.zip vals, p.2.ty = p.1.ty) :
+    ∃ b st st', call dr cap (ctorNew s) { args := [("from", fieldsOf s.data vals)] } = .ok st ∧ st.result = .record b ∧
+      call dr cap (unpackFn s) { self_ := some b, selfGlue := some s.data } = .ok st' ∧
+      st'.result = .struct ((s.data.map (·.name)).zip vals) none ∧ st'.drops = [] := by
+  obtain ⟨b, st, hcall, hres, hcap, _, _, hfound, _⟩ := ctorNew_ok dr cap s hwf vals hl hty
+  obtain ⟨st', hu, hr, hd, _⟩ := unpack_ok dr cap s b hcap hwf hrec (fun d hd => by
+    obtain ⟨i, hi, rfl⟩ := List.mem_iff_getElem.1 hd
+    exact ⟨_, hfound (s.data[i], vals[i]'(by omega)) (by rw [List.mem_iff_getElem]; exact ⟨i, by simp [hl]; exact hi, by simp⟩)⟩)
+  refine ⟨b, st, st', hcall, hres, hu, ?_, hd⟩
+  rw [hr]
+  congr 2
+  apply List.ext_getElem
+  · simp [hl]
+  · intro i h1 h2
+    simp only [List.getElem_map]
+    have hi : i < s.data.length := by simpa using h1
+    rw [hfound (s.data[i], vals[i]'(by omega)) (by rw [List.mem_iff_getElem]; exact ⟨i, by simp [hl]; exact hi, by simp⟩)]
+    rfl
+
+/-- a write through one field's mutable accessor changes that field and no other -/
+theorem C04_set_frame (dr : String → Bool) (b : Buf) (d : D) (e : Ext) (v : Val) (hv : v.ty = d.ty) (hf : b.find d = some e) :
+    (b.assign dr d v).1.find d = some { e with val := v } ∧
+    (∀ d', KeyNe d d' → (b.assign dr d v).1.find d' = b.find d') ∧
+    (b.assign dr d v).2 = (if dr d.ty then [e.val] else []) :=
+  ⟨(assign_ok dr b d e v hv hf).2.1, (assign_ok dr b d e v hv hf).2.2, (assign_ok dr b d e v hv hf).1⟩
 
 /-- non-vacuity: two adjacent fields, one odd-sized -/
 example : (match (do
